@@ -739,6 +739,11 @@ func (x *Exec) callCommon(fr *Frame, st *State, in ssa.Instruction, c *ssa.CallC
 			x.applyContract(fr, st, in, tc, sig, tc.Key, args, false, k)
 			return
 		}
+		// a function-typed struct field of unnamed type: contract "func field:Type.name"
+		if tc := x.eng.funcFieldContract(c.Value); tc != nil {
+			x.applyContract(fr, st, in, tc, sig, tc.Key, args, false, k)
+			return
+		}
 		x.note("call through function value without contract at " + x.where(in) + " (heap havoced)")
 		x.havocAllCall(st, append([]Val{fnv}, args...))
 		k(st, x.freshResult(st, rt, "dyn"))
